@@ -218,7 +218,10 @@ def compare_hydrogens(run0, runT, back_xyz, back_key, viol, counts, only_protein
                 used.add(bi)
                 worst = max(worst, best)
                 if best > 0.001 + 1e-9:
-                    if degree.get(parent, 0) <= 1:
+                    planar_amine = parent[0] in ("NH1", "NH2", "ND2", "NE2") and any(
+                        degree.get(tuple(k2 if tuple(k1) == tuple(parent) else k1), 0) >= 3
+                        for (k1, k2) in run0.rec["confs"][name]["bonds"] if tuple(parent) in (tuple(k1), tuple(k2)))
+                    if degree.get(parent, 0) <= 1 and not planar_amine:
                         # a parent with a single heavy neighbour: the builder picks the rotamer with
                         # Vector.orthogonal(), which depends on the coordinate frame
                         rotors += 1
